@@ -794,11 +794,11 @@ impl Scenario for C09 {
             }
             _ => {
                 let max = if tier == Tier::Thorough && rng.chance(0.2) { 200 } else { 40 };
-                (
-                    // a third of these streams is longer than the reader's buffer
-                    if rng.chance(0.33) { rng.usize(45, 90) } else { rng.usize(1, max) },
-                    Mode::Random { n: if tier == Tier::Thorough { 400 } else { 150 }, seed: rng.next_u64() },
-                )
+                // a third of these streams is longer than the reader's buffer,
+                // a few are thousands of frames long
+                let nf = if rng.chance(0.03) { rng.usize(400, 3000) } else if rng.chance(0.33) { rng.usize(45, 90) } else { rng.usize(1, max) };
+                let n = if nf >= 400 { 10 } else if tier == Tier::Thorough { 400 } else { 150 };
+                (nf, Mode::Random { n, seed: rng.next_u64() })
             }
         };
         let mut frames = Vec::new();
